@@ -464,9 +464,31 @@ def s03_sibling_constructors(ctx):
         canon_forms[name] = {k: _subst(fields[k], L, 'L') for k in ('half', 'half_m1')}
         if mode == 'len':
             # slice must be sorted before Ok: a sort call on the path
-            sorts = [t for bi, t in b.calls() if (t['callee'].get('name') or '').startswith('sort')]
+            sorts = [(bi, t) for bi, t in b.calls() if (t['callee'].get('name') or '').startswith('sort')]
             if not sorts:
                 r.violate(key + '|slice-not-sorted', 'SMM::deserialize rebuilds the sorted slice without sorting it', b.file, b.line)
+            for bi, t in sorts:
+                nm = t['callee']['name']
+                numeric = False
+                if nm in ('sort_by', 'sort_unstable_by') and len(t['args']) == 2:
+                    cl = b.tree_of_operand(t['args'][1])
+                    cid = None
+                    for x in walk_tree(cl):
+                        if x[0] == 'agg' and x[1] == 'closure':
+                            cid = x[2]
+                    cb = m.body_by_id(cid) if cid else None
+                    if cb is None and cid:
+                        cb = Body(f.bodies[cid]) if cid in f.bodies else None
+                    if cb is not None:
+                        for cbi, ct in cb.calls():
+                            if ct['callee'].get('name') in ('partial_cmp', 'total_cmp') and any(a in ('f64', 'f32', '&f64', '&f32') for a in ct['callee'].get('args', [])):
+                                numeric = True
+                    if cl[0] == 'fn' and cl[1].endswith('total_cmp'):
+                        numeric = True
+                r.inst(key + '|sort-order')
+                if not numeric:
+                    r.violate(key + '|sort-order|' + nm, 'SMM::deserialize sorts the restored slice with `%s` whose order is not the numeric order of f64 (partial_cmp / total_cmp): '
+                              'next() searches the slice by numeric order, so a restored SMM with negative values is inconsistent' % nm, b.file, b.term_line(bi))
     if 'new' in canon_forms and 'deserialize' in canon_forms:
         for k in ('half', 'half_m1'):
             r.inst('SMM|%s' % k)
